@@ -209,3 +209,29 @@ def model_native_expr(op, args, ovf=True, k=0):
 
 def strip_site(t):
     return "panic" if t.startswith("panic@") else t
+
+
+def tables_stable():
+    """The generated tables are shared files: another check running at the same time against a different
+    repository (VERIF_REPO) can overwrite them mid-run.  True iff Gen/NativeGen.v still says what the
+    repository under test says."""
+    import gen_native
+    seen = {}
+    orig = gen_native.write_if_changed
+    gen_native.write_if_changed = lambda rel, content: seen.setdefault(rel, content) and False
+    try:
+        gen_native.gen_native()
+    finally:
+        gen_native.write_if_changed = orig
+    want = seen.get("theories/Gen/NativeGen.v")
+    try:
+        have = open(os.path.join(vlib.VERIF, "theories/Gen/NativeGen.v")).read()
+    except OSError:
+        return False
+    return want == have
+
+
+def require_stable_tables(what):
+    if not tables_stable():
+        raise RuntimeError("theories/Gen/NativeGen.v was overwritten during the run (another check running against a "
+                           "different repository?); cannot attribute: " + what)
